@@ -150,10 +150,14 @@ impl BuiltInFunction {
                     unreachable!()
                 };
 
+                let additional: usize = (*size).try_into().with_context(|| {
+                    format!("additional vector capacity `{size}` could not fit in an int (i32)")
+                })?;
+
+                // `reserve` aborts the whole interpreter when the allocation cannot be made
                 v.0.borrow_mut()
-                    .reserve((*size).try_into().with_context(|| {
-                        format!("additional vector capacity `{size}` could not fit in an int (i32)")
-                    })?);
+                    .try_reserve(additional)
+                    .with_context(|| format!("cannot reserve space for {size} more elements"))?;
 
                 Ok((None, None))
             }
